@@ -10,7 +10,7 @@ import (
 // decoder, and the two stacks omniparser builds from them) and, through the Cases files, to the
 // Gallina model of Model/Chunk.v.  faults=false: io.EOF tails only (C09); true: fault tails (C16).
 func components(r *vh.Rng, o *vh.Opts, sum *vh.Summary, cw *vh.CaseWriter) {
-	n := o.Count(300, 20000)
+	n := o.Count(300, 6000)
 	for i := 0; i < n; i++ {
 		iox.Component(r, sum, cw, false)
 	}
